@@ -443,30 +443,39 @@ func (c *Client) Tx(ctx context.Context, hash []byte, prove bool) (*ctypes.Resul
 		return res, err
 	}
 
+	if !bytes.Equal(res.Tx.Hash(), hash) {
+		return nil, fmt.Errorf("returned transaction %X does not match the requested hash %X", res.Tx.Hash(), hash)
+	}
+
+	return res, c.verifyTxProof(ctx, res)
+}
+
+// verifyTxProof checks that the proof of res is for the transaction res
+// carries and verifies it against the data hash of the trusted header at
+// res.Height.
+func (c *Client) verifyTxProof(ctx context.Context, res *ctypes.ResultTx) error {
 	// Validate res.
 	if res.Height <= 0 {
-		return nil, errNegOrZeroHeight
+		return errNegOrZeroHeight
 	}
 
 	// Update the light client if we're behind.
 	l, err := c.updateLightClientIfNeededTo(ctx, &res.Height)
 	if err != nil {
-		return nil, err
+		return err
 	}
 
-	// The proof must be for the transaction that is returned, and that
-	// transaction must be the one that was asked for.
+	// The proof must be for the transaction that is returned.
 	if !bytes.Equal(res.Proof.Data, res.Tx) {
-		return nil, errors.New("proof is not for the returned transaction")
-	}
-	if !bytes.Equal(res.Tx.Hash(), hash) {
-		return nil, fmt.Errorf("returned transaction %X does not match the requested hash %X", res.Tx.Hash(), hash)
+		return errors.New("proof is not for the returned transaction")
 	}
 
 	// Validate the proof.
-	return res, res.Proof.Validate(l.DataHash)
+	return res.Proof.Validate(l.DataHash)
 }
 
+// TxSearch calls rpcclient#TxSearch and then verifies the proof of every
+// transaction if such were requested.
 func (c *Client) TxSearch(
 	ctx context.Context,
 	query string,
@@ -474,7 +483,21 @@ func (c *Client) TxSearch(
 	page, perPage *int,
 	orderBy string,
 ) (*ctypes.ResultTxSearch, error) {
-	return c.next.TxSearch(ctx, query, prove, page, perPage, orderBy)
+	res, err := c.next.TxSearch(ctx, query, prove, page, perPage, orderBy)
+	if err != nil || !prove {
+		return res, err
+	}
+
+	for _, tx := range res.Txs {
+		if tx == nil {
+			return nil, errors.New("nil transaction in search result")
+		}
+		if err := c.verifyTxProof(ctx, tx); err != nil {
+			return nil, err
+		}
+	}
+
+	return res, nil
 }
 
 func (c *Client) BlockSearch(
